@@ -78,7 +78,14 @@ int main(int argc, char **argv)
         g_q[g_qn++] = ids[i];
         nresent++;
     }
-    printf("  -> no NewSessionTicket in the retransmission\n");
+    if (n > 0 && g_all[ids[0]].data[0] == 22 && g_all[ids[0]].data[13] == 4)
+    {
+        printf("  -> the retransmission carries the NewSessionTicket again\n");
+    }
+    else
+    {
+        printf("  -> no NewSessionTicket in the retransmission\n");
+    }
 
     /* perfect network from now on, both timers running */
     S.hsComplete = 0; /* keep the server's timer running in fair_run */
@@ -96,6 +103,33 @@ int main(int argc, char **argv)
             "completes\n");
         return 1;
     }
-    printf("handshake completed\n");
+    if (!exchange_check(&C, &S, "demo3"))
+    {
+        printf("VIOLATION: handshake completed but data does not flow\n");
+        return 1;
+    }
+    printf("OK: handshake completed after the lost flight was retransmitted "
+        "(client got a ticket of %d bytes), data flows\n",
+        (int) C.ssl->sid->sessionTicketLen);
+    /* control: the ticket that arrived in the retransmitted flight resumes */
+    matrixSslDeleteSession(C.ssl);
+    matrixSslDeleteSession(S.ssl);
+    new_server(&S, sk, ver, 0);
+    new_client(&C, ck, ver, suite, sid, 1);
+    g_qn = 0;
+    n = ep_flush(&C, ids, 64);
+    for (i = 0; i < n; i++)
+    {
+        g_q[g_qn++] = ids[i];
+    }
+    rounds = fair_run(&C, &S, 5, 1000);
+    if (rounds < 0 || !(S.ssl->flags & SSL_FLAGS_RESUMED) ||
+        !exchange_check(&C, &S, "demo3-resumed"))
+    {
+        printf("VIOLATION: second connection with that ticket: rounds=%d "
+            "resumed=%d\n", rounds, !!(S.ssl->flags & SSL_FLAGS_RESUMED));
+        return 1;
+    }
+    printf("OK: a second connection resumed with that ticket, data flows\n");
     return 0;
 }
